@@ -202,7 +202,9 @@ fn check_reopen_at(pad: usize) -> Check {
 /// switched, the package is saved.  `case` = (string index, page pair, order).
 fn check_reopen_beside_strings(case: (u8, u8, u8)) -> Check {
     use msi::CodePage;
-    let strings = ["é", "éé", "ééé", "éééé", "Zoë", "日本", "日本語", "naïve café"];
+    // (the first eight keep their positions: stored replay cases name them by index); the later ones hold
+    // U+0000, an ordinary character in a length-prefixed summary string, at the start, inside and at the end
+    let strings = ["é", "éé", "ééé", "éééé", "Zoë", "日本", "日本語", "naïve café", "a\0bcdefgh", "\0", "ab\0", "\0\0\0\0\0", "x\0yz\0 and a longer tail", "é\0éé", "", "abc"];
     let pairs = [(CodePage::Windows1252, CodePage::Utf8), (CodePage::Utf8, CodePage::Windows1252), (CodePage::Windows932, CodePage::Utf8), (CodePage::Utf8, CodePage::Windows932)];
     let text = strings[case.0 as usize % strings.len()];
     let (from, to) = pairs[case.1 as usize % pairs.len()];
@@ -212,8 +214,20 @@ fn check_reopen_beside_strings(case: (u8, u8, u8)) -> Check {
     if case.2 % 2 == 0 {
         pkg.summary_info_mut().set_creation_time(st);
     }
-    pkg.summary_info_mut().set_author(text);
-    pkg.summary_info_mut().set_comments(text);
+    // which string properties hold the text: author and comments (cases 0..16 of the order byte, as stored
+    // replay cases expect), or one of the others that precede the creation time in the stream
+    match case.2 / 4 {
+        0 => {
+            pkg.summary_info_mut().set_author(text);
+            pkg.summary_info_mut().set_comments(text);
+        }
+        1 => pkg.summary_info_mut().set_title(text),
+        2 => pkg.summary_info_mut().set_subject(text),
+        _ => {
+            pkg.summary_info_mut().set_title(text);
+            pkg.summary_info_mut().set_creating_application(text);
+        }
+    }
     if case.2 % 2 == 1 {
         pkg.summary_info_mut().set_creation_time(st);
     }
@@ -301,7 +315,7 @@ fn time_strategy() -> impl Strategy<Value = T> {
 pub fn run(ctx: &Ctx) -> Report {
     let mut rep = Report::new(
         "exploration",
-        "system times as signed (secs, nanos) offsets from the Unix epoch: every tick boundary +-3 ticks x sub-tick nanoseconds 0..199 around 1601-01-01, 1970-01-01 and the 64-bit tick maximum (enumerated), platform extremes, uniform / log-uniform / ordinary generated times, generated pairs for monotonicity, a sample through save and reopen. Non-trivial = a time that is not on a tick boundary or lies within 1 s of a range end; distinct by the time itself.",
+        "system times as signed (secs, nanos) offsets from the Unix epoch: every tick boundary +-3 ticks x sub-tick nanoseconds 0..199 around 1601-01-01, 1970-01-01 and the 64-bit tick maximum (enumerated), platform extremes, uniform / log-uniform / ordinary generated times, generated pairs for monotonicity, a sample through save and reopen, alone, behind comments of every length that moves it across a 4, 8 or 16 KiB boundary of the stream, and beside string properties (title, subject, author, comments, creating application; non-ASCII text and text with U+0000 at the start, inside and at the end) under summary code-page switches. Non-trivial = a time that is not on a tick boundary or lies within 1 s of a range end; distinct by the time itself.",
     );
     let mut st = Stats::new();
 
@@ -418,9 +432,9 @@ pub fn run(ctx: &Ctx) -> Report {
 
     // 6. beside strings whose encoded length changes with the code page
     let mut beside: Vec<(u8, u8, u8)> = Vec::new();
-    for a in 0..8u8 {
+    for a in 0..16u8 {
         for b in 0..4u8 {
-            for c in 0..4u8 {
+            for c in 0..16u8 {
                 beside.push((a, b, c));
             }
         }
